@@ -246,6 +246,18 @@ def run_segment(ops: list, disk: str, segment: int = 0) -> dict:  # noqa: C901, 
                         b["model"] = model
                 else:
                     b["last"] = None
+            elif kind == "edit_model":
+                # the user works with the model that formulate() returned: values and entries change in place
+                model = b["model"]
+                if model is None:
+                    ev["skipped"] = "no model"
+                else:
+                    keys = list(model.parameter_defaults)
+                    if keys:
+                        model.parameter_defaults[op.get("i", 0) % len(keys)] = 42.5
+                    first = next(iter(model.components))
+                    model.components[first] = model.components[first] + 1
+                    model.kinematic_variables.pop(next(iter(model.kinematic_variables)), None)
             elif kind == "touch_model":
                 # a user annotates the model in place: a derived component that does not sort last
                 model = b["model"]
@@ -315,6 +327,13 @@ def run_segment(ops: list, disk: str, segment: int = 0) -> dict:  # noqa: C901, 
                     events.append(ev)
                     continue
                 path = os.path.join(disk, op["file"])
+                if op.get("interrupt"):
+                    # Ctrl-C in the middle of a first attempt to pickle; the user then simply tries again
+                    try:
+                        with zc.Interrupter(int(op["interrupt"])) as intr:
+                            pickle.dumps(entry["expr"])
+                    except zc.SimInterrupt:
+                        ev["interrupted_at"] = intr.fired_at
                 with open(path, "wb") as f:
                     pickle.dump(entry["expr"], f)
                 dumped[op["file"]] = entry
